@@ -585,6 +585,20 @@ func checkRecordSeq(p *core.Prog, r *core.Result, recordSeq, extend *ssa.Functio
 		}
 		nTrim++
 		construct := "diff.(*differ).recordSeq#restart-trims-" + opnd
+		// the offset may be read back from the field it has just been stored into (diff.ox, diff.oy = x-1, y-1)
+		if ld, ok := lo.(*ssa.UnOp); ok && ld.Op == token.MUL {
+			if owner, fld := core.FieldOf(ld.X); owner != nil && owner.Obj().Name() == "differ" {
+				var stored []ssa.Value
+				core.Instrs(recordSeq, func(in2 ssa.Instruction) {
+					if s2, ok := in2.(*ssa.Store); ok && core.IsField(s2.Addr, pkgDiff, "differ", fld) && core.Dominates(s2, ld) {
+						stored = append(stored, s2.Val)
+					}
+				})
+				if len(stored) == 1 {
+					lo = stored[0]
+				}
+			}
+		}
 		got := counterOf(lo)
 		switch got {
 		case opnd:
@@ -1025,12 +1039,29 @@ func checkSnakeEquality(p *core.Prog, r *core.Result, rule string) {
 			if !ok {
 				return
 			}
+			// the incremented value flows back into the phi, directly or through the merge of an if/else
 			loop := false
-			for _, e := range phi.Edges {
-				if e == ssa.Value(inc) {
-					loop = true
+			seenPhi := map[*ssa.Phi]bool{}
+			var back func(v ssa.Value)
+			back = func(v ssa.Value) {
+				refs := v.Referrers()
+				if refs == nil {
+					return
+				}
+				for _, ref := range *refs {
+					ph, ok := ref.(*ssa.Phi)
+					if !ok || seenPhi[ph] {
+						continue
+					}
+					seenPhi[ph] = true
+					if ph == phi {
+						loop = true
+						return
+					}
+					back(ph)
 				}
 			}
+			back(inc)
 			if !loop {
 				return
 			}
@@ -1197,9 +1228,75 @@ func checkComposeMerge(p *core.Prog, r *core.Result) {
 			}
 			return kindOf(callers[0].Common().Args[idx], callers[0].(ssa.Instruction), nil, depth+1)
 		}
+		// a candidate selected on several paths (var tail *Edit; if … { tail = prior }): every non-nil alternative has the
+		// same kind, judged with the facts of the edge that selects it; the nil alternative is excluded where E != nil is known
+		if ph, ok := E.(*ssa.Phi); ok && depth < 3 {
+			if k := func() string {
+				efs := p.PhiEdgeFacts(ph)
+				kind := ""
+				for i, edge := range ph.Edges {
+					if core.IsNilConst(edge) {
+						nonNil := p.FactsAt(at).Find(func(cv ssa.Value, v bool) bool {
+							b, ok := cv.(*ssa.BinOp)
+							if !ok || !(b.X == ssa.Value(ph) && core.IsNilConst(b.Y) || b.Y == ssa.Value(ph) && core.IsNilConst(b.X)) {
+								return false
+							}
+							return b.Op == token.NEQ && v || b.Op == token.EQL && !v
+						})
+						if !nonNil {
+							return ""
+						}
+						continue
+					}
+					var ef core.FactSet
+					if i < len(efs) {
+						ef = efs[i]
+					}
+					k := kindOf(edge, at, ef, depth+1)
+					if k == "" || kind != "" && k != kind {
+						return ""
+					}
+					kind = k
+				}
+				return kind
+			}(); k != "" {
+				return k
+			}
+			// otherwise the kind may be known of the selection variable itself (tail.kind tested after the selection)
+		}
 		facts := xfacts(p, at)
 		if extra != nil {
 			facts = append(facts, xfactsOf(p, extra)...)
+		}
+		// where a selection variable is known to be non-nil and only one of its alternatives is non-nil, the facts of the edge
+		// that selects that alternative hold as well (tail != nil ⇒ the path through `tail = prior` was taken)
+		for fct := range p.FactsAt(at) {
+			b, ok := fct.Cond.(*ssa.BinOp)
+			if !ok || !(b.Op == token.NEQ && fct.Val || b.Op == token.EQL && !fct.Val) {
+				continue
+			}
+			var ph *ssa.Phi
+			if x, ok := b.X.(*ssa.Phi); ok && core.IsNilConst(b.Y) {
+				ph = x
+			} else if y, ok := b.Y.(*ssa.Phi); ok && core.IsNilConst(b.X) {
+				ph = y
+			}
+			if ph == nil {
+				continue
+			}
+			nonNil := -1
+			for i, e := range ph.Edges {
+				if !core.IsNilConst(e) {
+					if nonNil >= 0 {
+						nonNil = -2
+						break
+					}
+					nonNil = i
+				}
+			}
+			if efs := p.PhiEdgeFacts(ph); nonNil >= 0 && nonNil < len(efs) {
+				facts = append(facts, xfactsOf(p, efs[nonNil])...)
+			}
 		}
 		src := internalSrc(E)
 		for _, f := range facts {
